@@ -528,8 +528,9 @@ theorem honest_blockgrowth_is_writers (C : Crypto) (bs : Array Bytes) (n : Nat) 
     proof made of the block's bytes, its reference sibling path up to that node, the *other* nodes of `us` and the
     writer's signature for `n` passes `verify_proof` (the block climb recomputes the node, `verify_upgrade` takes it from
     its extra slot exactly when its turn comes and reports it as consumed, so no stored node is compared); the changeset
-    holds the reference roots, length and byte length of `n` and the signature, is commitable, and records reference
-    nodes only.  (Byte offset and commit at core level for this shape are covered by the run.) -/
+    holds the reference roots, length and byte length of `n` and the signature, is commitable, records reference nodes
+    only, and committing it leaves the replica's tree closed (`ClosedAt`: every stored node below a root has its sibling
+    and parent stored).  (Byte offset and commit at core level for this shape are covered by the run.) -/
 theorem honest_new_block_with_upgrade_accepted (C : Crypto) (hC : TreeStore.HashWF C) (bs : Array Bytes) (m n : Nat) (c : Core) (d : Disk)
     (held : Nat → Bool) (h : Growth.RepRAt C bs m c d held) (hm0 : 0 < m) (hmn : m < n) (hn : n ≤ bs.size) (us : List (Nat × Nat))
     (hup : Growth.Up m 0 (RefTree.rootsStack n).reverse us) (sig : Bytes) (hsl : sig.length = 64)
@@ -540,7 +541,10 @@ theorem honest_new_block_with_upgrade_accepted (C : Crypto) (hC : TreeStore.Hash
             some ⟨m, n - m, (a ++ b).map (fun p => RefTree.nodeAt C bs p.1 p.2), [], sig⟩⟩ c.publicKey = .ok cs'
       ∧ cs'.roots = Growth.rootsAt C bs n ∧ cs'.length = n ∧ cs'.byteLength = Offsets.psum bs n ∧ cs'.upgraded = true
       ∧ cs'.signature = some sig ∧ cs'.fork = c.tree.fork ∧ c.tree.commitable cs' = true
-      ∧ (∀ x ∈ cs'.rnodes, ∃ dd o, x = RefTree.nodeAt C bs dd o) :=
-  BlockNew.honest_new_block_upgrade_accepted C hC bs m n c d held h hm0 hmn hn us hup sig hsl hver i hmi hi
+      ∧ (∀ x ∈ cs'.nodes, ∃ dd o, x = RefTree.nodeAt C bs dd o ∧ (o + 1) * 2 ^ dd ≤ n)
+      ∧ Growth.ClosedAt C bs n (Growth.vt c.tree cs') d.tree := by
+  obtain ⟨a, b, k, cs', h1, h2, h3, h4, h5, h6, h7, h8, h9, h10, h11, h12, h13, _⟩ :=
+    BlockNew.honest_new_block_upgrade_accepted C hC bs m n c d held h hm0 hmn hn us hup sig hsl hver i hmi hi
+  exact ⟨a, b, k, cs', h1, h2, h3, h4, h5, h6, h7, h8, h9, h10, h11, h12, h13⟩
 
 end HC.C03
